@@ -24,9 +24,36 @@
 
   The index-level model of cbuf.c (`indexOps`, the instance executed against the real code)
   simulates `fifoOps` (Relay/IndexSim.lean `idx_sim`, on top of property C13's refinement
-  lemmas), so the `_index` theorems below state the same of the index-level relay without any
-  hypothesis about the buffer.  Threads, the kernel and poll() are not modelled (real-process
-  runs in the check).
+  lemmas `writeFromFd_refines`/`read_refines`/`peekLine_refines`), so the `_index` theorems state the
+  same of the index-level relay without any hypothesis about the buffer.
+
+  CLAUSE OF THE STATEMENT                                   THEOREM
+  bytes written (label stripped) = bytes the command wrote  relay_lossless, relay_lossless_stripped, relay_c05Ok,
+    nothing lost / duplicated / invented, in order            relay_closed_form (+ _index, _index_generated)
+  "likewise standard error to standard error"               stderr_relayed_like_stdout, relay_only_own_stream
+  any read sizes, lines split across reads                  relay_chunk_independent (every script of the same stream)
+  short reads / EAGAIN / EINTR / any poll order             worker_delivers_what_it_read (every event list of `pollStep`)
+  output ending without a newline, empty lines              in `Spec.render` / the domain (tail, lines of 1 byte)
+  many hosts streaming at once                              relay_lossless_any_interleaving (+ _index_)
+  -N                                                        relay_verbatim_with_N
+  the loop runs until BOTH streams are at EOF               poll_loop_left_only_at_eof_of_both, handler_closes_exactly_at_eof
+  a worker is done only after its output is delivered (C03) worker_done_has_delivered_everything
+  a host that is given up on (timeout, poll error)          abandoned_stream_relays_what_was_read, worker_delivers_what_it_read
+  a host whose command never starts                         unstarted_host_writes_nothing
+  pdcp/rpdcp: remote stderr through the same functions      rcp_stderr_relayed, pdcp_success_reads_no_stderr
+  domain: NUL-free, lines <= 128 KiB, no marker             dom_in_words; sharpness: beyond_domain_drops_head,
+                                                              nul_cuts_record, extractRc_with_marker_cuts, marker_lookalikes_untouched
+  the constants the proof leans on (cbuf_create arguments,  growthOk_generated(_assert), growth_from_4096_ok,
+    CBUF_CHUNK, bookkeeping cells)                            growth_from_1024_not_ok, short_growth_step_drops (necessity)
+
+  NOT PROVED (correspondence / real runs only): when the bytes of a stdio call reach the descriptor is the
+  stdio layer's business (Relay/Stdio.lean, Props/C06 `records_reach_consumer_any_schedule`: assumption that
+  glibc behaves like that writer); what a transport child does to inherited stdio buffers (seeded C06-5: must
+  be nothing, `_exit`); read(2) errors other than EAGAIN/EINTR (the handler prints a diagnostic and closes the
+  descriptor: outside the property's domain, exercised by the scheduler part); `xpoll.c` itself and the kernel
+  (the LTS takes their behaviour as events: any subset reported, any cap, any order); threads (one worker per
+  host, per-call atomicity of stdio: Props/C06); the hand-written model's fidelity to dsh.c/err.c as such
+  (differential execution on every run, incl. `handleCap` under scripted read faults and `_parallel_copy`).
 -/
 import PdshVerif.Relay.TailLemmas
 import PdshVerif.Relay.Interleave
